@@ -96,7 +96,7 @@ theorem rt_string_print {F : GFile} (hl : RtLink F) (gw : GWorld) (s : String) :
   exact call_func_env hf rfl (block_cons (stmt_expr hcall) (block_cons_sig (sig := .ret .unit) (by simp) (stmt_ret ev_unitv))) rfl
 
 theorem argsRel_single {env : Env} {η : Hp} {vs : List Val} {gvs : List GVal} {t : Ty} (h : ArgsRel env η vs gvs [t]) :
-    ∃ v g, vs = [v] ∧ gvs = [g] ∧ toGV env η v = some g ∧ HasTy env η v t := by
+    ∃ v g, vs = [v] ∧ gvs = [g] ∧ VRel env η v t g ∧ HasTy env η v t := by
   rcases vs with _ | ⟨v, _ | ⟨v2, vs⟩⟩ <;> rcases gvs with _ | ⟨g, _ | ⟨g2, gs⟩⟩ <;> simp [ArgsRel] at h
   exact ⟨v, g, rfl, rfl, h.1, h.2⟩
 
@@ -130,11 +130,11 @@ theorem builtin_int {env : Env} {η : Hp} {F : GFile} (hl : RtLink F) (name : St
     {vs : List Val} {gvs : List GVal} {w : World} {gw : GWorld}
     (hargs : ArgsRel env η vs gvs [.int b sg]) (hw : WRel env η w gw) :
     ∃ v w' gv gw', Sem.builtin name vs w = some (.ok v w') ∧ CallS F gw (.func name) gvs (.ok gv gw') ∧
-      toGV env η v = some gv ∧ HasTy env η v .string ∧ WRel env η w' gw' := by
+      VRel env η v .string gv ∧ HasTy env η v .string ∧ WRel env η w' gw' := by
   obtain ⟨v, g, rfl, rfl, hg, ht⟩ := argsRel_single hargs
   obtain ⟨x, rfl⟩ := hasTy_int ht
-  simp [toGV] at hg; subst hg
-  exact ⟨_, w, _, gw, hsem _ _ _ _, rt_int_to_string hl gw name gty (hl.rt _ _ hrt) _ _ _, rfl, trivial, hw⟩
+  simp [VRel] at hg; subst hg
+  exact ⟨_, w, _, gw, hsem _ _ _ _, rt_int_to_string hl gw name gty (hl.rt _ _ hrt) _ _ _, by simp [VRel], trivial, hw⟩
 
 /-- the builtins keep their names in Go -/
 theorem vn_builtin {b : String} (hb : b ∈ builtinNames) : vn b = b := by
@@ -146,18 +146,18 @@ theorem builtin_call {env : Env} {η : Hp} {F : GFile} (hl : RtLink F) {b : Stri
     {w : World} {gw : GWorld} (hb : b ∈ builtinNames) (hsig : builtinSig b = some (ps, r))
     (hargs : ArgsRel env η vs gvs ps) (hw : WRel env η w gw) :
     ∃ v w' gv gw', Sem.builtin b vs w = some (.ok v w') ∧ CallS F gw (.func b) gvs (.ok gv gw') ∧
-      toGV env η v = some gv ∧ HasTy env η v r ∧ WRel env η w' gw' := by
+      VRel env η v r gv ∧ HasTy env η v r ∧ WRel env η w' gw' := by
   simp only [builtinNames, List.mem_cons, List.mem_singleton, List.not_mem_nil, or_false] at hb
   rcases hb with rfl | rfl | rfl | rfl | rfl | rfl | rfl | rfl | rfl | rfl | rfl | rfl <;>
     (simp only [builtinSig, Option.some.injEq, Prod.mk.injEq] at hsig; obtain ⟨hp, hr⟩ := hsig; subst hp; subst hr)
   · obtain ⟨v, g, rfl, rfl, hg, ht⟩ := argsRel_single hargs
     have := hasTy_unit ht; subst this
-    simp [toGV] at hg; subst hg
-    exact ⟨_, w, _, gw, rfl, rt_unit_to_string hl gw, rfl, trivial, hw⟩
+    simp [VRel] at hg; subst hg
+    exact ⟨_, w, _, gw, rfl, rt_unit_to_string hl gw, by simp [VRel], trivial, hw⟩
   · obtain ⟨v, g, rfl, rfl, hg, ht⟩ := argsRel_single hargs
     obtain ⟨bb, rfl⟩ := hasTy_bool ht
-    simp [toGV] at hg; subst hg
-    exact ⟨_, w, _, gw, rfl, rt_bool_to_string hl gw bb, rfl, trivial, hw⟩
+    simp [VRel] at hg; subst hg
+    exact ⟨_, w, _, gw, rfl, rt_bool_to_string hl gw bb, by simp [VRel], trivial, hw⟩
   · exact builtin_int hl _ _ _ _ rfl sem_int8_ts hargs hw
   · exact builtin_int hl _ _ _ _ rfl sem_int16_ts hargs hw
   · exact builtin_int hl _ _ _ _ rfl sem_int32_ts hargs hw
@@ -168,12 +168,12 @@ theorem builtin_call {env : Env} {η : Hp} {F : GFile} (hl : RtLink F) {b : Stri
   · exact builtin_int hl _ _ _ _ rfl sem_uint64_ts hargs hw
   · obtain ⟨v, g, rfl, rfl, hg, ht⟩ := argsRel_single hargs
     obtain ⟨s, rfl⟩ := hasTy_str ht
-    simp [toGV] at hg; subst hg
-    exact ⟨_, _, _, _, rfl, rt_string_print hl gw s, rfl, trivial, hw.print s⟩
+    simp [VRel] at hg; subst hg
+    exact ⟨_, _, _, _, rfl, rt_string_print hl gw s, by simp [VRel], trivial, hw.print s⟩
   · obtain ⟨v, g, rfl, rfl, hg, ht⟩ := argsRel_single hargs
     obtain ⟨s, rfl⟩ := hasTy_str ht
-    simp [toGV] at hg; subst hg
-    refine ⟨_, _, _, _, rfl, rt_string_println hl gw s, rfl, trivial, ?_⟩
+    simp [VRel] at hg; subst hg
+    refine ⟨_, _, _, _, rfl, rt_string_println hl gw s, by simp [VRel], trivial, ?_⟩
     have := (hw.print s).print "\n"
     simpa [String.append_assoc] using this
 
